@@ -121,22 +121,24 @@ func (p *Proxy) Alive() bool {
 func (p *Proxy) Pid() int { return p.cmd.Process.Pid }
 
 type Result struct {
-	ExitCode    int              `json:"exit_code"`
-	Signaled    bool             `json:"signaled"`
-	KilledLate  bool             `json:"killed_after_grace"` // did not exit within the grace period after SIGTERM
-	ExitAfter   time.Duration    `json:"exit_after"`         // time from SIGTERM to exit
-	Panic       string           `json:"panic,omitempty"`    // first panic/fatal line + a few following lines
-	Races       []racelog.Report `json:"-"`
-	PoolReports []string         `json:"pool_reports,omitempty"`
-	HookReports []string         `json:"hook_reports,omitempty"`
-	PoolStats   map[string]any   `json:"pool_stats,omitempty"`
-	LogErrors   int              `json:"log_errors"`
+	ExitCode       int              `json:"exit_code"`
+	DiedBeforeStop bool             `json:"died_before_stop"` // the process was already gone when Stop was called
+	Signaled       bool             `json:"signaled"`
+	KilledLate     bool             `json:"killed_after_grace"` // did not exit within the grace period after SIGTERM
+	ExitAfter      time.Duration    `json:"exit_after"`         // time from SIGTERM to exit
+	Panic          string           `json:"panic,omitempty"`    // first panic/fatal line + a few following lines
+	Races          []racelog.Report `json:"-"`
+	PoolReports    []string         `json:"pool_reports,omitempty"`
+	HookReports    []string         `json:"hook_reports,omitempty"`
+	PoolStats      map[string]any   `json:"pool_stats,omitempty"`
+	LogErrors      int              `json:"log_errors"`
 }
 
 // Stop terminates the proxy with SIGTERM (grace: 15 s, then SIGKILL) and collects everything it left behind.
 func (p *Proxy) Stop() *Result {
 	res := &Result{}
 	t0 := time.Now()
+	res.DiedBeforeStop = !p.Alive()
 	if p.Alive() {
 		p.cmd.Process.Signal(syscall.SIGTERM)
 		select {
